@@ -43,7 +43,7 @@ ASSUMPTIONS = [
     "Excel pair columns are accepted under either species order of the label",
 ]
 REQUIRED = {"target:GULP": 20, "target:excel": 15, "target:eam_adp": 20, "target:excel_eam": 15,
-            "target:excel_eam_fs": 15, "target:funcfl": 20, "adp:undeclared_multipole": 10, "rewrite:2_writes": 2, "break_on_row": 8}
+            "target:excel_eam_fs": 15, "target:funcfl": 20, "adp:undeclared_multipole": 10, "rewrite:2_writes": 2, "rewrite:one_object": 2, "break_on_row": 8}
 XL = ("e", 16)
 
 
@@ -104,12 +104,11 @@ def _node_case(draw):
 
 
 @st.composite
-def _rewrite(draw):
+def _rewrite(draw, target):
     """GULP / ADP / funcfl written again from the same objects after one function was re-parametrised"""
-    target = draw(st.sampled_from(["GULP", "eam_adp", "funcfl"]))
     if target == "GULP":
         m = draw(_pair_case("GULP"))
-        m["route"] = draw(st.sampled_from(["class", "writePotentials"]))
+        m["route"] = draw(st.sampled_from(["class", "class", "writePotentials"]))
         m["pair"] = [[a, b, pd] for a, b, pd in m["pair"]]
     elif target == "eam_adp":
         m = draw(_eam_case("eam_adp"))
@@ -117,6 +116,8 @@ def _rewrite(draw):
     else:
         m = draw(_funcfl_case())
     m["rewrite"] = draw(rewrite.plan(m))
+    if m.get("route") == "class" and draw(st.integers(0, 2)) > 0:
+        m["rewrite"]["same_object"] = True          # the tabulation object itself is written again
     if target == "funcfl":
         m["rewrite"]["ks"] = [abs(k) for k in m["rewrite"]["ks"]]      # the format stores sqrt(r*phi): phi stays >= 0
         if any(a == b for a, b in zip(m["rewrite"]["ks"], m["rewrite"]["ks"][1:])):
@@ -131,7 +132,8 @@ def strategy(tier):
 def strata(tier):
     return [("GULP", _pair_case("GULP"), 3), ("excel", _pair_case("excel"), 2), ("eam_adp", _eam_case("eam_adp"), 3),
             ("excel_eam", _eam_case("excel_eam"), 2), ("excel_eam_fs", _eam_case("excel_eam_fs"), 2),
-            ("funcfl", _funcfl_case(), 3), ("rewrite", _rewrite(), 2), ("break_on_row", _node_case(), 3)]
+            ("funcfl", _funcfl_case(), 3), ("rewrite:GULP", _rewrite("GULP"), 1), ("rewrite:eam_adp", _rewrite("eam_adp"), 0.7),
+            ("rewrite:funcfl", _rewrite("funcfl"), 0.6), ("break_on_row", _node_case(), 3)]
 
 
 def budget(tier):
